@@ -93,6 +93,16 @@ func projectMessage(c *contract, file, parent string, m protoreflect.MessageDesc
 				kind = "oneof"
 			}
 		}
+		// a oneof schema without options has no protobuf oneof (protobuf has no empty oneof); the documented message
+		// annotation (README: `option (j5.ext.v1.message).oneof = {}`) still says what it is
+		if ext := optionMessage(m.Options(), "j5.ext.v1.message"); ext != nil {
+			ext.Range(func(fd protoreflect.FieldDescriptor, v protoreflect.Value) bool {
+				if fd.Name() == "oneof" {
+					kind = "oneof"
+				}
+				return true
+			})
+		}
 	}
 	full := string(m.FullName())
 	c.Msgs = append(c.Msgs, cElem{"full": full, "file": file, "parent": parent, "kind": kind})
@@ -349,7 +359,29 @@ func compareContract(out *Out, where string, pred, real *contract) {
 	for _, e := range indexByMissing(pred.Imports, real.Imports, "file", "dep") {
 		out.V("C02|import-missing|"+where, "file %s references a type defined in %s but does not import it", str(e, "file"), str(e, "dep"))
 	}
-	compareKind(out, where, "message", pred.Msgs, real.Msgs, []string{"full"}, []attrSpec{{"parent", false}, {"kind", false}, {"file", true}}, false)
+	// object / oneof is observable on the fields (inOneof); for a message without fields the kind is not demanded
+	hasField := map[string]bool{}
+	for _, f := range pred.Fields {
+		hasField[str(f, "msg")] = true
+	}
+	var withF, withoutF, realWith, realWithout []cElem
+	for _, m := range pred.Msgs {
+		if hasField[str(m, "full")] {
+			withF = append(withF, m)
+		} else {
+			withoutF = append(withoutF, m)
+		}
+	}
+	pnames := indexBy(withoutF, "full")
+	for _, m := range real.Msgs {
+		if _, ok := pnames[str(m, "full")]; ok {
+			realWithout = append(realWithout, m)
+		} else {
+			realWith = append(realWith, m)
+		}
+	}
+	compareKind(out, where, "message", withF, realWith, []string{"full"}, []attrSpec{{"parent", false}, {"kind", false}, {"file", true}}, false)
+	compareKind(out, where, "message", withoutF, realWithout, []string{"full"}, []attrSpec{{"parent", false}, {"kind", true}, {"file", true}}, false)
 	compareFields(out, where, pred.Fields, real.Fields)
 	compareKind(out, where, "enum", pred.Enums, real.Enums, []string{"full"}, []attrSpec{{"parent", false}, {"file", true}}, false)
 	compareValues(out, where, pred.Values, real.Values)
